@@ -166,4 +166,10 @@ open LJT.Huff in
 example : ([5, 1, 1, 2] : List Nat).length ≤ 257 ∧ ((List.range 256).map (([5, 1, 1, 2] : List Nat).getD · 0)).sum < 1000000000 := by
   decide +kernel
 
+-- non-vacuity of the error exit: counts 1, 2, 3, 5, 8, ... over 34 symbols make the Huffman tree a chain of depth 34
+open LJT.Huff in
+example : genOptimalTable [1, 2, 3, 5, 8, 13, 21, 34, 55, 89, 144, 233, 377, 610, 987, 1597, 2584, 4181, 6765, 10946, 17711, 28657,
+    46368, 75025, 121393, 196418, 317811, 514229, 832040, 1346269, 2178309, 3524578, 5702887, 9227465] = .clenOverflow := by
+  decide +kernel
+
 end LJT.C19
